@@ -365,9 +365,13 @@ def _live_outside(body, local, loop_blocks):
     return local <= body.arg_count
 
 
+_FLOWS = [None]
+
+
 def find_sites(prog, flows, effects, bodies=None):
     """all hash-iteration sites in the given bodies (default: all)"""
     sites = []
+    _FLOWS[0] = flows
     for p, b in prog.bodies.items():
         if bodies is not None and p not in bodies:
             continue
@@ -428,7 +432,21 @@ def _follow(prog, b, fl, effects, site, local, seen):
                 aliases.add(s.lhs.local)
                 changed = True
     if 0 in aliases:
-        site.escapes.append("returned from %s" % b.short)
+        handed_on = False
+        if b.kind == "closure" and _FLOWS[0] is not None:
+            # `xs.iter().flat_map(|c| c.iter())` / `.map(|c| c.iter())`: the hash-ordered iterator the closure returns is
+            # consumed through the adaptor it was handed to -- keep following there
+            flows_ = _FLOWS[0]
+            for (pp, s_) in flows_.closure_sites(b.path):
+                pb = prog.bodies[pp]
+                pf = flows_.of(pp)
+                cls_ = pf.copies_of(s_.lhs.local)
+                for t in pb.calls():
+                    if t.callee and t.callee.short.split("::")[-1] in ("flat_map", "map", "flatten", "filter_map", "and_then") and any(a.place is not None and a.place.local in cls_ for a in t.args[1:]) and not t.dest.proj:
+                        handed_on = True
+                        _follow(prog, pb, pf, effects, site, t.dest.local, set())
+        if not handed_on:
+            site.escapes.append("returned from %s" % b.short)
     for t in b.calls():
         if not any(a.place is not None and a.place.local in aliases and not a.place.proj for a in t.args):
             continue
